@@ -85,15 +85,18 @@ fn pick_s(items: &'static [&'static str]) -> BoxedStrategy<String> {
 }
 
 const ATOMS: &[&str] = &[
-    "a", "b", "foo", "bar", "[]", "{}", "!", ";", "'hello world'", "'it''s'", "'\\n'", "'\\x41\\'", "'a\\\nb'", "''", "+", "-", "*", "=", "\\+", "-->", ":-", "|", "||", "αβγ", "'日本語'", "é", "neg", "post", "decl",
-    "===>", "**>", "<+>", "dynamic", "is", "mod", "'\\\\'", "'/*'", "a_B1", "'A'", "'_'", "[ ]", "{ }", "'\\z'", "'a", "e", "end_of_file", "\\", "^", "?-", "#", "@>=", "'😀'", "'e\u{301}'",
+    "a", "b", "foo", "bar", "[]", "{}", "!", ";", "'hello world'", "'it''s'", "'\\n'", "'\\x41\\'", "'a\\\nb'", "''", "+", "-", "*", "=", "\\+", "-->", ":-", "αβγ", "'日本語'", "é", "neg", "post", "decl",
+    "===>", "**>", "<+>", "dynamic", "is", "mod", "'\\\\'", "'/*'", "a_B1", "'A'", "'_'", "e", "end_of_file", "\\", "^", "?-", "#", "@>=", "'😀'", "'e\u{301}'", "'[]'", "'{}'", "'|'",
 ];
+const ODD_ATOMS: &[&str] = &["|", "||", "[ ]", "{ }", "'\\z'", "'a", "'\\xg\\'", "'a\nb'", "/*", "0a", "'\\400000000\\'"];
 const VARS: &[&str] = &["X", "Y", "Z", "_", "_G1", "Foo", "_x", "X1", "Λ", "_1", "A", "B", "Écu"];
 const NUMS: &[&str] = &[
-    "0", "1", "-1", "42", "1.0", "-0.0", "1.0e10", "1.5E-3", "0x1F", "0o17", "0b101", "0'a", "0''", "0'''", "0'\\n", "123456789012345678901234567890", "1_000", "1 000", "0'", "1.e5", "1.0Inf", "0.1e", "1r3", "36028797018963968",
-    "-36028797018963968", "0xg", "0'ab", "1.0e", "9223372036854775808", "0.5", "1.0e-320", "1.7976931348623157e308", "1e10", "0' ", "0'\\x41\\", "2'1", "00", "0.0", "-  1", "- 1",
+    "0", "1", "-1", "42", "1.0", "-0.0", "1.0e10", "1.5E-3", "0x1F", "0o17", "0b101", "0'a", "0''", "0'\\n", "123456789012345678901234567890", "36028797018963968",
+    "-36028797018963968", "9223372036854775808", "0.5", "1.0e-320", "1.7976931348623157e308", "0' ", "0'\\x41\\", "00", "0.0", "- 1", "1.0Inf", "0'\\\\", "0'\"", "1e10", "0.1e5", "1.0e+10",
 ];
-const STRS: &[&str] = &["\"abc\"", "\"\"", "\"a\\\"b\"", "\"a\"\"b\"", "\"λ日\"", "\"a\\nb\"", "\"\\x41\\\"", "`abc`", "\"a\\\nb\"", "\"a b\"", "\"'\"", "\"abc", "\"\\q\"", "\"😀\""];
+const ODD_NUMS: &[&str] = &["1_000", "1 000", "0'", "1.e5", "0.1e", "1r3", "0xg", "0'ab", "1.0e", "2'1", "-  1", "0'''", "1.0e400", "0b2", "0o8", "1.", "0x"];
+const STRS: &[&str] = &["\"abc\"", "\"\"", "\"a\\\"b\"", "\"a\"\"b\"", "\"λ日\"", "\"a\\nb\"", "\"\\x41\\\"", "`abc`", "\"a\\\nb\"", "\"a b\"", "\"'\"", "\"😀\""];
+const ODD_STRS: &[&str] = &["\"abc", "\"\\q\"", "\"a\nb\"", "`a"];
 const PUNCT: &[&str] = &["(", ")", "[", "]", "{", "}", ",", "|", ".", " ", "\n", "'", "\"", "%", "/*", "*/", "\\", "0'", "\t", "`", ". ", "_", "é"];
 const INFIX: &[&str] = &["=", "+", "-", "*", "/", ":-", "-->", ",", ";", "->", "is", "mod", "===>", "**>", "<+>", "^", ":", "=..", "<", "@<", "\\=", "|", "**", "rdiv", "xor", "rem", "//", ">>", "=:=", "\\==", "*->", "||"];
 const PREFIX: &[&str] = &["-", "+", "\\+", "\\", ":-", "?-", "neg", "decl", "dynamic", "- ", "\\ "];
@@ -102,13 +105,17 @@ const ENDS: &[&str] = &[". ", ".\n", ".", ".%c\n", ". % c", " .\n", ".\t", ".\n\
 
 fn text_leaf() -> BoxedStrategy<String> {
     prop_oneof![
-        5 => pick_s(ATOMS),
-        4 => pick_s(VARS),
-        4 => pick_s(NUMS),
-        2 => pick_s(STRS),
-        1 => "[a-z][a-zA-Z0-9_]{0,6}".prop_map(|s| s),
-        1 => "[A-Z_][a-zA-Z0-9_]{0,4}".prop_map(|s| s),
-        1 => (any::<i64>()).prop_map(|v| v.to_string()),
+        10 => pick_s(ATOMS),
+        8 => pick_s(VARS),
+        8 => pick_s(NUMS),
+        4 => pick_s(STRS),
+        2 => "[a-z][a-zA-Z0-9_]{0,6}".prop_map(|s| s),
+        2 => "[A-Z_][a-zA-Z0-9_]{0,4}".prop_map(|s| s),
+        2 => (any::<i64>()).prop_map(|v| v.to_string()),
+        // malformed or borderline tokens
+        1 => pick_s(ODD_ATOMS),
+        1 => pick_s(ODD_NUMS),
+        1 => pick_s(ODD_STRS),
     ]
     .boxed()
 }
@@ -122,12 +129,11 @@ fn text_term() -> BoxedStrategy<String> {
                 1 => (proptest::collection::vec(inner.clone(), 1..=2), inner.clone()).prop_map(|(items, t)| format!("[{}|{t}]", items.join(","))),
                 1 => inner.clone().prop_map(|a| format!("{{{a}}}")),
                 2 => inner.clone().prop_map(|a| format!("({a})")),
-                6 => (inner.clone(), pick_s(INFIX), inner.clone(), pick_s(SEPS), pick_s(SEPS)).prop_map(|(a, op, b, s1, s2)| format!("{a}{s1}{op}{s2}{b}")),
-                2 => (inner.clone(), pick_s(INFIX), inner.clone()).prop_map(|(a, op, b)| format!("({a}) {op} ({b})")),
-                3 => (pick_s(PREFIX), inner.clone(), pick_s(SEPS)).prop_map(|(op, a, s)| format!("{op}{s}{a}")),
-                1 => (pick_s(PREFIX), inner.clone()).prop_map(|(op, a)| format!("{op}({a})")),
-                1 => inner.clone().prop_map(|a| format!("{a} post")),
-                1 => (inner.clone(), inner.clone()).prop_map(|(a, b)| format!("{a} {b}")),
+                3 => (inner.clone(), pick_s(INFIX), inner.clone(), pick_s(SEPS), pick_s(SEPS)).prop_map(|(a, op, b, s1, s2)| format!("{a}{s1}{op}{s2}{b}")),
+                5 => (inner.clone(), pick_s(INFIX), inner.clone()).prop_map(|(a, op, b)| format!("({a}) {op} ({b})")),
+                2 => (pick_s(PREFIX), inner.clone(), pick_s(SEPS)).prop_map(|(op, a, s)| format!("{op}{s}{a}")),
+                2 => (pick_s(PREFIX), inner.clone()).prop_map(|(op, a)| format!("{op}({a})")),
+                1 => inner.clone().prop_map(|a| format!("({a}) post")),
             ]
         })
         .boxed()
